@@ -80,8 +80,8 @@ theorem Inv.wCons {s : State} (hI : Inv s) {h f v n ver : Nat} (hp : s.pc (.fr h
       grind [updA, upd, Pc.pend, Pc.locks]
   case placed => inv_auto
   case freshHolder => inv_auto
-  case scanL0 => inv_auto
-  case unlockL0 => inv_auto
+  case scanL0 => unfold ScanL0 at *; inv_auto
+  case unlockL0 => unfold ScanL0 UnlockL0 at *; inv_auto
   case oScanOk => inv_auto
   case oNoneOk => inv_auto
   case aUnlockOk =>
